@@ -59,6 +59,7 @@ class Table:
         self.word_param = H.param_binding(self.body, 1)
         self.b_param = H.param_binding(self.body, 2)
         self.self_param = H.param_binding(self.body, 0)
+        self.names = self._role_names()
         self.match = self._find_match()
         self.forwarder = None
         self.arms = []
@@ -71,6 +72,44 @@ class Table:
                 self.arms.append(Arm(a, strs, is_default=(len(lits) == 0)))
         else:
             self.forwarder = self._forwarder()
+
+    def _role_names(self):
+        """Rename-robust rendering: parameters by role, immutable lets inlined, mutable locals by type role."""
+        names = {}
+        if self.b_param:
+            names[self.b_param[0]] = 'B'
+        if self.word_param:
+            names[self.word_param[0]] = 'W'
+        lets = {}
+        tys = {}
+        for n in H.walk(self.body['value']):
+            if n.get('k') == 'Let' and 'pat' in n and n['pat'].get('k') == 'Binding' and n.get('init') is not None:
+                lets[n['pat']['bid']] = n['init']
+                tys[n['pat']['bid']] = n['pat'].get('ty') or n['init'].get('ty') or ''
+        assigned = H.assigned_locals(self.body['value'])
+        counter = [0]
+        for bid in sorted(lets):
+            if bid in assigned:
+                ty = tys.get(bid, '')
+                if 'Excludable' in ty or 'Restriction' in ty:
+                    names[bid] = '$FLAGS'
+                else:
+                    counter[0] += 1
+                    names[bid] = '$M%d' % counter[0]
+        # the status variable: bound to the result of the table / an if-else over it
+        for bid, init in lets.items():
+            if bid not in names and (tys.get(bid, '').startswith('core::result::Result') or (init.get('ty') or '').startswith('core::result::Result')) \
+                    and H.peel(init).get('k') in ('Match', 'If'):
+                names[bid] = '$STATUS'
+        # immutable lets: inline (in definition order so that earlier ones are available)
+        for bid in sorted(lets):
+            if bid in names:
+                continue
+            init = lets[bid]
+            if H.peel(init).get('k') in ('Match', 'If', 'BlockExpr', 'Closure'):
+                continue
+            names[bid] = H.render(init, names)
+        return names
 
     def _find_match(self):
         best = None
@@ -173,7 +212,7 @@ class Table:
             sides2 = list(sides)
             for s in blk['stmts']:
                 if s['k'] in ('Semi', 'Expr') and s['e'].get('k') == 'Assign':
-                    sides2.append('%s = %s' % (H.render(s['e']['l']), H.render(s['e']['r'])))
+                    sides2.append('%s = %s' % (H.render(s['e']['l'], self.names), H.render(s['e']['r'], self.names)))
                 elif s['k'] == 'Let':
                     sides2.append('let %s = %s' % (H.render_pat(s['pat']), H.render(s.get('init'))))
                 else:
@@ -201,7 +240,7 @@ class Table:
     def guard_atoms(self, arm):
         if arm.guard is None:
             return []
-        return [H.norm_atom(c) for c in H.conjuncts(arm.guard)]
+        return [H.norm_atom(c, self.names) for c in H.conjuncts(arm.guard)]
 
 
 # ---------------------------------------------------------------------------------------
